@@ -1,7 +1,7 @@
 (* C10: s2m lists each record's runs; m2s is its exact inversion; independent of the interleaving. *)
 From Coq Require Import NArith ZArith List.
 From KT Require Import Gen.Generated Gen.Alphabet Gen.GeneratedFacts Model.Kmer Model.Ops Model.Rows Model.Pipeline.
-From KT Require Import Proof.ItemsSched Proof.MinAbs Proof.MinSpec Proof.MinConc Proof.MinExt.
+From KT Require Import Proof.ItemsSched Proof.ItemsTrace Proof.MinAbs Proof.MinSpec Proof.MinConc Proof.MinExt.
 Import ListNotations.
 Open Scope N_scope.
 
@@ -13,6 +13,15 @@ Theorem C10_items_exact_every_interleaving :
   forall sched, ItemsSched.complete X W (ItemsSched.exec X recs W sched) ->
   forall x, ItemsSched.occ X X_dec x (ItemsSched.out X (ItemsSched.exec X recs W sched)) = ItemsSched.all X X_dec recs x.
 Proof. exact items_exact. Qed.
+
+(* the same for the steps the real workers take at the hook points (TAKE, then one PUSH or WRITE per item, back at
+   the reader right after the last item): each is one or two steps of the model above, so the result transfers;
+   this fused machine is the one whose trace is replayed against the hooked implementation *)
+Theorem C10_items_exact_for_the_real_steps :
+  forall (X : Type) (X_dec : forall a b : X, {a = b} + {a <> b}) (recs : list (list X)) (W : nat) sched, (1 <= W)%nat ->
+  ItemsSched.complete X W (fexec X recs W sched) ->
+  forall x, ItemsSched.occ X X_dec x (ItemsSched.out X (fexec X recs W sched)) = ItemsSched.all X X_dec recs x.
+Proof. intros X X_dec recs W sched HW Hc. exact (fused_items_exact X recs W X_dec sched HW Hc). Qed.
 
 (* the runs written for a record are the runs of the minimiser iterator over the effective window
    (w = 0: one window spanning the whole record), which are the maximal same-minimiser runs (C09) *)
@@ -34,4 +43,5 @@ Example C10_example :
 Proof. vm_compute. split; reflexivity. Qed.
 
 Print Assumptions C10_items_exact_every_interleaving.
+Print Assumptions C10_items_exact_for_the_real_steps.
 Print Assumptions C10_record_runs_are_spec_runs.
